@@ -166,7 +166,7 @@ def kernel_fallback(rep, cfg, name, op, ps, al, tag, site):
     """linear ring operations written with raw integer arithmetic: exact integer analysis for all 64-bit representations"""
     from .. import kprove, kcheck
     smod = front.module(cfg, sroa=True)
-    if op not in ('neg', 'add', 'sub') or any(kind(p) != 'ext' for p in ps):
+    if op not in ('neg', 'add', 'sub', 'mul', 'square') or any(kind(p) != 'ext' for p in ps):
         rep.incomplete('value:' + tag, 'ext-value', site, 'raw integer arithmetic on representations in a routine the kernel-mode fallback does not cover')
         return
     names = [p.name for p in ps]
@@ -187,6 +187,17 @@ def kernel_fallback(rep, cfg, name, op, ps, al, tag, site):
     ia = alias.get(idx['a'], idx['a'])
     ib = alias.get(idx['b'], idx['b']) if 'b' in idx else None
     specs = []
+    if op in ('mul', 'square'):
+        def prod(A):
+            X = [A[syms[(ia, j)]] for j in range(3)]
+            Y = X if op == 'square' else [A[syms[(ib, j)]] for j in range(3)]
+            return mulspec(X, Y)
+        specs = [(lambda A, j=j: prod(A)[j]) for j in range(3)]
+        r = kprove.prove_cells(smod, name, len(ps), ins, [(idx['result'], 8 * j) for j in range(3)], specs, alias=alias,
+                               use_int_summaries=False, extra_summaries=kprove.scalar_summaries(smod), budget=20000)
+        kcheck.record(rep, 'value:' + tag, 'ext-value-kernel', site, r,
+                      '%s with raw integer arithmetic on representations (scalar add/sub/mul by contract): each component = exact result mod p for all 64-bit inputs' % op)
+        return
     for j in range(3):
         if op == 'neg':
             specs.append(lambda A, j=j: -A[syms[(ia, j)]])
